@@ -265,7 +265,12 @@ ActC16Join == [][\A c \in Clients : (R.op = "Welcome" /\ R.c = c /\ R.what = "ac
 \* action properties on the real trace
 ActC02 == [][C02_ContentImmutable \/ R.op = "Reset"]_tvars
 \* (bound variables are rigid: priming ObsOf(R.c) would read the *next* trace line)
-ActC07 == [][\A c \in Clients : (R.op = "Deliver" /\ R.c = c /\ R.e \in DOMAIN ev /\ Handled(c, R.e)) => ObsSame(c)]_tvars
+ActC07 == [][\A c \in Clients : (R.op = "Deliver" /\ R.c = c /\ R.e \in DOMAIN ev /\ Handled(c, R.e))
+                  => \/ ObsSame(c)
+                     \* a record overwritten by a welcome (listed finding) is brought back in line with the MLS group by the re-sync
+                     \* that a re-delivered, already applied commit performs
+                     \/ /\ "WelcomeOverwritesActiveGroup" \in Dev /\ <<c, ev[R.e].g>> \in hist.wreset
+                        /\ PrintT(<<"KNOWN-FINDING", "C07", "WelcomeOverwritesActiveGroup", c, R.e>>)]_tvars
 InvC20 == C20_Bounded
 \* start-up leaves no snapshot older than the configured time-to-live (ages by the driver's own clock, not the store's stamps)
 ActC20 == [][(R.op = "Restart" /\ "ttl" \in DOMAIN R)
